@@ -105,7 +105,7 @@ func (*c14Prop) Plans(tier string) []Plan {
 		return []Plan{
 			{Name: "plain", Workers: 16, Runs: 2500, MaxTime: 20e9},
 			{Name: "race", Race: true, Workers: 16, Runs: 1500, MaxTime: 28e9},
-			{Name: "race-cold", Race: true, Workers: 16, Runs: 1, MaxTime: 30e9, Cold: true},
+			{Name: "race-cold", Race: true, Workers: 96, Runs: 1, MaxTime: 30e9, Cold: true},
 			{Name: "deep", Variant: 1, Workers: 8, Runs: 6, MaxTime: 25e9},
 		}
 	}
@@ -216,6 +216,12 @@ func (*c14Prop) Gen(r *Rand, pl *Plan) Case {
 		l := r.Intn(3)
 		c.Common = []int{l, l + r.Intn(6)} // (prefix / huge placements are ignored in this mode too)
 	}
+	// (in the cold plans every case runs in a process of its own: whatever "the first / the
+	// largest so far in this process" triggers, triggers there - so a third of them are long)
+	longCase := r.Chance(1, 40) || pl.Cold && r.Chance(1, 3)
+	if longCase && r.Chance(2, 3) {
+		c.Graphs[0] = GraphSpec{Kind: "arith", Churn: r.Intn(3)} // the memoised, left-recursive expression grammar
+	}
 	caseHuge := 0
 	if r.Chance(1, 8) {
 		caseHuge = hugeSizes[r.Intn(len(hugeSizes))]
@@ -233,6 +239,11 @@ func (*c14Prop) Gen(r *Rand, pl *Plan) Case {
 			t.Input = c.Tasks[r.Intn(i)].Input // identical inputs on purpose
 			if c.Tasks[0].Graph != t.Graph || c.Tasks[0].Construct || t.Construct {
 				t.Input = spec.genInput(r)
+			}
+		}
+		if longCase && r.Chance(2, 3) {
+			if l := spec.genLong(r); l != "" {
+				t.Input = l // inputs longer than anything the process has parsed before
 			}
 		}
 		if spec.Kind == "grammar" && !spec.Interp {
@@ -288,6 +299,22 @@ func (*c14Prop) Gen(r *Rand, pl *Plan) Case {
 		c.Sched.AbortAt = int64(r.Range(1, 6))
 		if r.Chance(1, 2) {
 			c.Sched.AbortAt = int64(r.Range(1, 60))
+		}
+	}
+	if longCase {
+		// long inputs need more statements than the default budget allows, and coarse time
+		// slices keep the recorded schedule short enough to be replayed
+		c.Sched.StepCap = 60000000
+		if r.Bool() {
+			c.Sched.Policy, c.Sched.Args = sim.PolSticky, [4]int64{4096}
+		} else {
+			c.Sched.Policy, c.Sched.Args = sim.PolRR, [4]int64{20000}
+		}
+	}
+	if pl.Cold {
+		c.Warm = nil // a cold process: first use happens in the concurrent phase
+		if longCase {
+			c.Sched.AbortTask, c.Sched.AbortAt = 0, 0
 		}
 	}
 	return c
@@ -688,6 +715,11 @@ func c14Run(c *c14Case, probeSequential bool) Verdict {
 				}
 			}
 			v.Probes["file_sets_built_from_a_common_prelude_slice"]++
+		}
+	}
+	for i := range c.Tasks {
+		if len(c.Tasks[i].Input) > 64 {
+			v.Probes["runs_with_an_input_longer_than_64_bytes"]++
 		}
 	}
 	before := snapshotRoots()
